@@ -4196,6 +4196,12 @@ class Union(TraitType):
 
         if 'default_value' in metadata:
             default_value = metadata.pop("default_value")
+            # A mutable default is copied for every instance, as for any
+            # other trait type, instead of being shared by all of them.
+            if isinstance(default_value, list):
+                self.default_value_type = DefaultValue.list_copy
+            elif isinstance(default_value, dict):
+                self.default_value_type = DefaultValue.dict_copy
         else:
             first_default_value_type, first_default_value = (
                 self.list_ctrait_instances[0].default_value())
